@@ -66,6 +66,7 @@ func init() {
 					r.Unresolved("no else-if on an error value found")
 				}
 			}},
+			{ID: "C17.R14", Floor: 1, Doc: "a pool's connection list is shortened by one only after the last element has been moved into the slot of the connection being removed", Run: c17r14},
 		},
 	})
 }
